@@ -93,7 +93,9 @@ def ifRepIgnored := 0x8000
 def ifLock := 0x10000
 def ifXAcquire := 0x20000
 def ifXRelease := 0x40000
+def ifVex := 0x400000
 def ifEvex := 0x800000
+def ifVsib := 0x100000
 def avxK := 0x1
 def avxZ := 0x2
 def avxER := 0x4
@@ -110,8 +112,14 @@ def optER := 0x40000
 def optSAE := 0x80000
 def optZMask := 0x800000
 def optRex := 0x40000000
+def optEvex := 0x1000
 def virtIdMin := 0x100
 def gpIdCx := 1
+def gpIdBx := 3
+def gpIdSp := 4
+def gpIdBp := 5
+def gpIdSi := 6
+def gpIdDi := 7
 
 def test (a b : Nat) : Bool := a &&& b != 0
 
@@ -142,7 +150,7 @@ inductive Operand
   | reg (rtype id : Nat)
   /-- `off`: the 64-bit offset/address as two's complement `Nat` (< 2^64): sign-extended 32-bit offset when there is a
       base register or label, the absolute address otherwise -/
-  | mem (size btype bid itype iid : Nat) (off : Nat) (seg bcst : Nat)
+  | mem (size btype bid itype iid shift : Nat) (off : Nat) (seg bcst : Nat)
   | imm (v : Nat)
   | label
   /-- any other `OperandType` -/
@@ -163,6 +171,8 @@ structure SigTables where
   isigs : List (Nat × Nat × Nat × List Nat)
   /-- `_op_signature_table`: `_flags` (56 bit), `_reg_mask` (8 bit) -/
   osigs : List (Nat × Nat)
+  /-- ids of the instructions whose `_encoding` is `kEncodingVexRvm_Lx_2xK` (vp2intersectd/q: mask register pair) -/
+  pairK : List Nat
 
 /-- `op_flag_from_reg_type_table` -/
 def opFlagOfRegType (t : Nat) : Nat :=
@@ -229,8 +239,21 @@ def memSizeFlag (sz : Nat) : Option Nat :=
 def isInt32 (off : Nat) : Bool := off < 0x80000000 || off ≥ 0xFFFFFFFF80000000
 def isUInt32 (off : Nat) : Bool := off ≤ 0xFFFFFFFF
 
-/-- translation of one operand: `Except error (op_flags, reg_mask (32 bit), contribution to combined_reg_mask, is memory)` -/
-def translateOp (mode avx : Nat) : Operand → Except Err (Nat × Nat × Nat)
+/-- `is_valid_address_16` (fixes/C13-5): 16-bit addressing has only [BX|BP|SI|DI] and [BX|BP + SI|DI], no scale -/
+def validAddr16 (btype bid itype iid shift : Nat) : Bool :=
+  let bxbp := fun r => r == gpIdBx || r == gpIdBp
+  let sidi := fun r => r == gpIdSi || r == gpIdDi
+  let hasB := btype != rtNone
+  let hasI := itype != rtNone
+  if (hasB && btype != rtGp16) || (hasI && itype != rtGp16) || shift != 0 then false
+  else if hasB && hasI then (bid ≥ virtIdMin || iid ≥ virtIdMin) || (bxbp bid && sidi iid) || (sidi bid && bxbp iid)
+  else
+    let r := if hasB then bid else iid
+    r ≥ virtIdMin || bxbp r || sidi r
+
+/-- translation of one operand: `Except error (op_flags, reg_mask (32 bit), contribution to combined_reg_mask)`;
+    `avx` / `iflags` = the instruction's `_avx512_flags` / `_flags` -/
+def translateOp (mode avx iflags : Nat) : Operand → Except Err (Nat × Nat × Nat)
   | .none => .error .invalidState      -- not reached: the loop stops at the first `none`
   | .other => .error .invalidState
   | .label => .ok (fRel8 ||| fRel32, 0, 0)
@@ -243,7 +266,7 @@ def translateOp (mode avx : Nat) : Operand → Except Err (Nat × Nat × Nat)
       else if !test (allowedRegMask mode t) (bit id) then .error .invalidPhysId
       else .ok (fl, bit id, bit id)
     else .error .illegalVirtReg
-  | .mem size btype bid itype iid off seg bcst =>
+  | .mem size btype bid itype iid shift off seg bcst =>
     if seg > 6 then .error .invalidSegment else
     -- AVX-512 broadcast {1toN}
     let bc : Except Err Nat :=
@@ -264,6 +287,7 @@ def translateOp (mode avx : Nat) : Operand → Except Err (Nat × Nat × Nat)
         if !test (allowedBase mode) (bit btype) then .error .invalidAddress
         else if bid < virtIdMin then
           if bid ≥ 32 then .error .invalidPhysId
+          else if !test (allowedRegMask mode btype) (bit bid) then .error .invalidPhysId     -- (fixes/C13-3)
           else .ok (if itype = rtNone ∧ off % 0x100000000 = 0 then fFlagMemBase else 0, bit bid, bit bid)
         else .error .illegalVirtReg
       else if btype = rtLabelTag then .ok (0, 0, 0)
@@ -289,13 +313,21 @@ def translateOp (mode avx : Nat) : Operand → Except Err (Nat × Nat × Nat)
             (if itype = rtVec128 then fVm32x ||| fVm64x else if itype = rtVec256 then fVm32y ||| fVm64y
              else if itype = rtVec512 then fVm32z ||| fVm64z else if btype ≠ rtNone then fFlagMib else 0)
           if btype = rtPC ∧ test fl fVmMask then .error .invalidAddress
+          -- (fixes/C13-4) [RIP|LABEL + INDEX] in 64-bit mode, vector index without VSIB, ESP|RSP as index
+          else if mode ≠ 1 ∧ (btype = rtPC ∨ btype = rtLabelTag) then .error .invalidAddress
+          else if test fl fVmMask && !test iflags ifVsib then .error .invalidAddress
+          else if !test fl fVmMask && itype != rtGp16 && iid == gpIdSp then .error .invalidAddress
           else if iid < virtIdMin then
-            if iid ≥ 32 then .error .invalidPhysId else .ok (fl, 0, bcomb ||| bit iid)
+            if iid ≥ 32 then .error .invalidPhysId
+            else if !test (allowedRegMask mode itype) (bit iid) then .error .invalidPhysId     -- (fixes/C13-3)
+            else .ok (fl, 0, bcomb ||| bit iid)
           else .error .illegalVirtReg
       else .ok (bfl, bmask, bcomb)
     match index with
     | .error e => .error e
     | .ok (fl, mask, comb) =>
+      -- (fixes/C13-5) 16-bit addressing forms
+      if (btype = rtGp16 ∨ itype = rtGp16) ∧ !validAddr16 btype bid itype iid shift then .error .invalidAddress else
       match memSizeFlag memSize with
       | none => .error .invalidOperandSize
       | some sf => .ok (fl ||| sf, mask, comb)
@@ -306,6 +338,8 @@ def checkOpSig (op ref : Nat × Nat) (oor : Bool) : Bool × Bool :=
   if !test common fOpMask then
     if test op.1 fImmMask && test ref.1 fImmMask then (true, true) else (false, oor)
   else if test common fMemMask && test ref.1 fFlagMemBase && !test op.1 fFlagMemBase then (false, oor)
+  -- (fixes/C13-6) the base register of such a memory operand is fixed
+  else if test common fMemMask && test ref.1 fFlagMemBase && ref.2 != 0 && !test op.2 ref.2 then (false, oor)
   else if test common fRegMask && ref.2 != 0 && !test op.2 ref.2 then (false, oor)
   else (true, oor)
 
@@ -352,13 +386,13 @@ def firstNone : List Operand → Nat
   | .none :: _ => 0
   | _ :: r => firstNone r + 1
 
-def translateAll (mode avx : Nat) : List Operand → Except Err (List (Nat × Nat) × Nat × Nat)
+def translateAll (mode avx iflags : Nat) : List Operand → Except Err (List (Nat × Nat) × Nat × Nat)
   | [] => .ok ([], 0, 0)
   | o :: r =>
-    match translateOp mode avx o with
+    match translateOp mode avx iflags o with
     | .error e => .error e
     | .ok (fl, mask, comb) =>
-      match translateAll mode avx r with
+      match translateAll mode avx iflags r with
       | .error e => .error e
       | .ok (sigs, cfl, ccomb) => .ok ((fl % 0x100000000000000, mask % 0x100) :: sigs, cfl ||| fl, ccomb ||| comb)
 
@@ -404,7 +438,7 @@ def validate (T : SigTables) (inst : Inst) (operands : List Operand) : Err :=
   -- operands -> signatures (stops at the first `none`; everything after it must be `none`)
   let n := firstNone operands
   let given := operands.take n
-  match translateAll mode avx given with
+  match translateAll mode avx iflags given with
   | .error e => e
   | .ok (sigs, combinedFlags, combinedRegMask) =>
   if (operands.drop n).any (· != .none) then .invalidInstruction else
@@ -421,6 +455,26 @@ def validate (T : SigTables) (inst : Inst) (operands : List Operand) : Err :=
     let (m, g) := matchSignatures T mode sigs ((T.isigs.drop sigIndex).take sigCount) false
     if m then .ok else if g then .invalidImmediate else .invalidInstruction
   if e4 ≠ .ok then e4 else
+  -- (fixes/C13-7) vp2intersectd|q write an aligned pair of mask registers
+  let ePair : Err :=
+    if T.pairK.contains inst.id then
+      match given with
+      | .reg _ k0 :: .reg _ k1 :: _ =>
+        if k0 < virtIdMin && k1 < virtIdMin && (k0 % 2 != 0 || k0 + 1 != k1) then .invalidPhysId else .ok
+      | _ => .ok
+    else .ok
+  if ePair ≠ .ok then ePair else
+  -- EVEX-only resources (fix C01-2): vector ids 16..31 and the evex option need an instruction with an EVEX form
+  let eEvex : Err :=
+    if !test iflags ifEvex && test iflags ifVex then
+      if test options optEvex then .invalidInstruction
+      else if given.any (fun o => match o with
+          | .reg t id => 7 ≤ t && t ≤ 15 && id ≥ 16 && id < virtIdMin
+          | .mem _ _ _ itype iid _ _ _ _ => itype > rtLabelTag && iid ≥ 16 && iid < virtIdMin && rtVec128 ≤ itype && itype ≤ rtVec512
+          | _ => false) then .invalidPhysId
+      else .ok
+    else .ok
+  if eEvex ≠ .ok then eEvex else
   -- AVX-512 options
   let memOp := lastMemBase given
   let e5 : Err :=
